@@ -62,6 +62,8 @@ template<> struct Elem<std::string> {
 struct TrackedThrowingMove : Tracked {
     TrackedThrowingMove() = default;
     explicit TrackedThrowingMove(int64_t v) : Tracked(v) {}
+    TrackedThrowingMove(int64_t a, int64_t b) : Tracked(a, b) {}
+    TrackedThrowingMove(std::initializer_list<int64_t> il) : Tracked(il) {}
     TrackedThrowingMove(const TrackedThrowingMove &) = default;
     TrackedThrowingMove(TrackedThrowingMove &&o) noexcept(false) : Tracked(std::move(static_cast<Tracked &>(o))) {}
     TrackedThrowingMove &operator=(const TrackedThrowingMove &) = default;
